@@ -693,7 +693,10 @@ def random_project(rnd: random.Random, n_targets: int = 8, lang: str = 'c', subp
             t['bbd'] = rnd.choice(['unset', 'unset', 'true', 'false'])
             t['install'] = rnd.random() < 0.25
         else:
-            if buildables and rnd.random() < 0.7:
+            runs = [j for j, u in earlier if u['kind'] == 'run']
+            if kind == 'alias' and runs and rnd.random() < 0.5:
+                t['deps'] = [rnd.choice(runs)]
+            elif buildables and rnd.random() < 0.7:
                 t['deps'] = rnd.sample(buildables, min(len(buildables), rnd.randint(1, 2)))
             elif kind == 'alias':
                 if not buildables:
